@@ -368,3 +368,85 @@ pub fn engine_roundtrip(cases: Vec<Value>, out: &mut NdjsonOut) {
     }
     let _ = std::fs::remove_dir_all(&root);
 }
+
+
+// join_hold: the producer of one frame of a thread / task stream is parked at a hook point inside its append (the
+// frame is numbered, and - depending on the point - on disk, but the append has not finished); a subscriber joins
+// the stream meanwhile (subscribe + history); the producer goes on.  The subscriber must receive every frame of the
+// stream exactly once, in order (Subscribe.tla: Join at any moment of Record / Publish).
+pub fn engine_join_hold(rt: &tokio::runtime::Runtime, cases: Vec<Value>, out: &mut NdjsonOut) {
+    let hub = crate::hub::hub();
+    for case in cases {
+        hub.reset();
+        let r = rt.block_on(async {
+            let root = util::scratch_root().join(format!("jh-{}", uuid::Uuid::new_v4().simple()));
+            let data = root.join("data");
+            let ws = root.join("ws");
+            std::fs::create_dir_all(&data).unwrap();
+            std::fs::create_dir_all(&ws).unwrap();
+            let server = crate::srv::Server::start(data.clone(), ws.clone(), None, false).await;
+            let base = server.base.clone();
+            let client = reqwest::Client::new();
+            let kind = get_str(&case, "kind").unwrap_or("thread").to_string();
+            let point = get_str(&case, "point").unwrap_or("cache.enter").to_string();
+            let k = case["seq"].as_u64().unwrap_or(1);
+            let (stream, url);
+            if kind == "thread" {
+                let (_, v) = post(&client, format!("{base}/threads/ensure"), json!({})).await;
+                let tid = v["thread_id"].as_str().unwrap_or("").to_string();
+                hub.arm_hold(&point, json!({"stream": tid, "seq": k}), 1);
+                let c2 = client.clone();
+                let u = format!("{base}/threads/{tid}/messages");
+                let content = get_str(&case, "content").map(str::to_string).unwrap_or_else(|| json!({"tool": "write", "args": {"path": "j.txt", "content": "x"}}).to_string());
+                tokio::spawn(async move {
+                    let _ = post(&c2, u, json!({"content": content})).await;
+                });
+                url = format!("{base}/threads/{tid}/events");
+                stream = tid;
+            } else {
+                hub.arm_hold(&point, json!({"sk": "task", "seq": k}), 1);
+                let cmd = get_str(&case, "command").unwrap_or("true").to_string();
+                let (_, v) = post(&client, format!("{base}/tasks"), json!({"tool": "bash", "args": {"command": cmd}})).await;
+                let id = v["task_id"].as_str().unwrap_or("").to_string();
+                url = format!("{base}/tasks/{id}/events");
+                stream = id;
+            }
+            let hub2 = hub.clone();
+            let held = tokio::task::spawn_blocking(move || hub2.wait_held(Duration::from_secs(3)).is_some()).await.unwrap_or(false);
+            let (sink, h) = subscribe(&client, url);
+            tokio::time::sleep(Duration::from_millis(get_u64(&case, "join_ms").unwrap_or(250))).await;
+            hub.release_hold();
+            // the stream's life goes on to its end
+            let done_kind = if kind == "thread" { "continuity_run_ended" } else { "tool_task_status" };
+            let mut log_seqs: Vec<u64> = Vec::new();
+            for _ in 0..300 {
+                let all = crate::runs::all_frames(&data);
+                let mine: Vec<&Value> = all.iter().filter(|f| f["stream_id"].as_str() == Some(stream.as_str())).collect();
+                log_seqs = mine.iter().filter_map(|f| f["seq"].as_u64()).collect();
+                let n_done = mine.iter().filter(|f| f["type"] == done_kind && (kind == "thread" || f["status"] != "running" && f["status"] != "queued")).count();
+                if n_done >= 1 {
+                    break;
+                }
+                tokio::time::sleep(Duration::from_millis(20)).await;
+            }
+            tokio::time::sleep(Duration::from_millis(150)).await;
+            let all = crate::runs::all_frames(&data);
+            log_seqs = all.iter().filter(|f| f["stream_id"].as_str() == Some(stream.as_str())).filter_map(|f| f["seq"].as_u64()).collect();
+            let want_last = log_seqs.last().copied();
+            for _ in 0..100 {
+                let got_last = sink.lock().unwrap().iter().filter_map(|f| f["seq"].as_u64()).max();
+                if got_last == want_last {
+                    break;
+                }
+                tokio::time::sleep(Duration::from_millis(20)).await;
+            }
+            let delivered: Vec<u64> = sink.lock().unwrap().iter().filter_map(|f| f["seq"].as_u64()).collect();
+            let closed = h.is_finished();
+            h.abort();
+            server.stop().await;
+            let _ = std::fs::remove_dir_all(&root);
+            json!({"id": case["id"], "held": held, "log_seqs": log_seqs, "delivered": delivered, "stream_closed_by_server": closed})
+        });
+        out.write(&r);
+    }
+}
